@@ -37,7 +37,10 @@ def build(c, tile=1):
         "secondary/lat": ("secondary/collocation", np.linspace(-10, 10, NS)),
         "secondary/lon": ("secondary/collocation", np.linspace(0, 50, NS)),
         "secondary/bt": (("secondary/collocation", "secondary/channel"), np.array(sv).reshape(NS, -1)),
-        "secondary/bt2": (("secondary/collocation", "secondary/channel"), np.array(sv).reshape(NS, -1) * 2.0 + 1.0),
+        # further variables whose names merely BEGIN like the coordinate fields time / lat / lon
+        "secondary/longwave": (("secondary/collocation", "secondary/channel"), np.array(sv).reshape(NS, -1) * 2.0 + 1.0),
+        "primary/latent": ("primary/collocation", np.array(pv) * 4.0 - 2.0),
+        "primary/time_since": ("primary/collocation", np.array(pv) * 0.5),
         "Collocations/pairs": (("Collocations/group", "Collocations/collocation"), pairs),
         "Collocations/interval": ("Collocations/collocation", np.zeros(M, dtype="timedelta64[s]")),
         "Collocations/distance": ("Collocations/collocation", np.zeros(M)),
@@ -48,6 +51,11 @@ def build(c, tile=1):
 def same(a, b):
     a, b = np.asarray(a, dtype=float), np.asarray(b, dtype=float)
     return a.shape == b.shape and bool(np.all((a == b) | (np.isnan(a) & np.isnan(b))))
+
+
+def near(a, b):
+    a, b = np.asarray(a, dtype=float), np.asarray(b, dtype=float)
+    return a.shape == b.shape and bool(np.all((np.abs(a - b) <= 1e-12 * np.maximum(1.0, np.abs(b))) | (np.isnan(a) & np.isnan(b))))
 
 
 def check_expand(col, c, exp, ds, label, conf):
@@ -95,10 +103,10 @@ def check_collapse(col, c, ds, conf):
                 num = r["secondary/bt_number"].values
                 mx = r["secondary/bt_max"].values if ref == "primary" else None
                 if ref == "primary":
-                    # bt2 = 2 * bt + 1 element-wise, so every statistic of bt2 is determined by the one of bt
-                    f1, f2 = r["secondary/bt_first"].values, r["secondary/bt2_first"].values
-                    if not same(f2, 2.0 * f1 + 1.0) or not same(r["secondary/bt2_max"].values, 2.0 * mx + 1.0) \
-                            or not same(r["secondary/bt2_number"].values, num):
+                    # longwave = 2 * bt + 1 element-wise, so every statistic of it is determined by the one of bt
+                    f1, f2 = r["secondary/bt_first"].values, r["secondary/longwave_first"].values
+                    if not same(f2, 2.0 * f1 + 1.0) or not same(r["secondary/longwave_max"].values, 2.0 * mx + 1.0) \
+                            or not same(r["secondary/longwave_number"].values, num):
                         raise AssertionError("second variable of the same shape disagrees with the first (first/max/number)")
                 ok = same(refv, [val(x["ref"]) for x in rows]) and mean.shape == (len(rows), len(rows[0]["stat"]))
                 if ok:
@@ -116,6 +124,11 @@ def check_collapse(col, c, ds, conf):
             else:
                 refv = r["secondary/bt"].values
                 mean, std, num = r["primary/val_mean"].values, r["primary/val_std"].values, r["primary/val_number"].values
+                # latent = 4 val - 2, time_since = val / 2 (exact in binary): their statistics follow from those of val
+                if not same(r["primary/latent_number"].values, num) or not same(r["primary/time_since_number"].values, num) \
+                        or not near(r["primary/latent_mean"].values, 4.0 * mean - 2.0) \
+                        or not near(r["primary/time_since_mean"].values, 0.5 * mean):
+                    raise AssertionError("variables named latent / time_since disagree with val (mean/number)")
                 ok = same(refv, [[val(x) for x in row["ref"]] for row in rows]) and mean.shape == (len(rows),)
                 if ok:
                     for i, row in enumerate(rows):
